@@ -7,6 +7,7 @@ import (
 	"context"
 	"errors"
 	"fmt"
+	"os"
 	"strconv"
 	"sync"
 	"sync/atomic"
@@ -230,6 +231,9 @@ func c31Run(line string) string {
 					return 0
 				}
 				late := gap > hi && c31Stalls.Load() == w.armStalls
+				if os.Getenv("VERIF_C31_DEBUG") != "" {
+					fmt.Fprintf(os.Stderr, "c31 debug: gap=%v d=%v stalls=%d armStalls=%d\n", gap, w.armD, c31Stalls.Load(), w.armStalls)
+				}
 				return fmt.Sprintf("attempt n=%d d=%d early=%d late=%d paused=%d", ev.n, w.armD.Nanoseconds(), b(gap < lo), b(late), b(ev.paused))
 			case <-time.After(limit):
 				if c31Stalls.Load() != stalls && try < 8 {
